@@ -11,6 +11,29 @@ import traceback
 sys.path.insert(0, os.path.dirname(os.path.dirname(os.path.abspath(__file__))))
 
 
+def _patch_testutil():
+    """pygopherd.testutil binds its mock server to one fixed port: when another check (or a test run) holds it at
+    that moment, wait and retry instead of failing the scenario."""
+    try:
+        import errno, random, time
+        from pygopherd import testutil
+    except Exception:
+        return
+    real = testutil.get_testing_server
+
+    def get_testing_server(*a, **kw):
+        for attempt in range(200):
+            try:
+                return real(*a, **kw)
+            except OSError as e:
+                if e.errno != errno.EADDRINUSE:
+                    raise
+                time.sleep(0.05 + random.random() * 0.25)
+        return real(*a, **kw)
+
+    testutil.get_testing_server = get_testing_server
+
+
 def main():
     path = sys.argv[1]
     d = json.load(open(path))
@@ -21,6 +44,7 @@ def main():
     if r is None:
         print("no realiser for %s" % fn)
         return 12
+    _patch_testutil()
     try:
         res = r(d)
     except Exception:
